@@ -142,7 +142,7 @@ var (
 	groupShapes = map[string][]uint16{
 		"absent": nil, "x25519": {29}, "p256-p384": {23, 24}, "grease-first": {0x3a3a, 29, 23}, "grease-last": {29, 23, 0x8a8a}, "many": {29, 23, 24, 25, 256, 257},
 	}
-	groupOrder = []string{"absent", "x25519", "p256-p384", "grease-first", "grease-last", "many"}
+	groupOrder  = []string{"absent", "x25519", "p256-p384", "grease-first", "grease-last", "many"}
 	pointShapes = [][]byte{nil, {0}, {0, 1}, {0, 1, 2}}
 )
 
